@@ -102,7 +102,8 @@ theorem deduct_WFS {s s' : Session} {amt : Coins} {now : Int} (hw : WFS s)
 def Adv (now : Int) (s s' : Session) : Prop :=
   SameGrant s s' ∧ WFS s' ∧
   ((s'.reset = s.reset ∧ s'.used = s.used) ∨
-   (s'.reset = (norm s now).reset ∧ resetDue s' now = false))
+   (s'.reset = (norm s now).reset ∧ resetDue s' now = false ∧
+     ∀ d, amountOf (norm s now).used d ≤ amountOf s'.used d))
 
 theorem norm_congr {s s' : Session} {now : Int} (hp : s'.period = s.period) (hr : s'.reset = s.reset)
     (hu : s'.used = s.used) : (norm s' now).used = (norm s now).used ∧ (norm s' now).reset = (norm s now).reset ∧
@@ -123,18 +124,23 @@ theorem Adv.trans {now : Int} {a b c : Session} (h1 : Adv now a b) (h2 : Adv now
   obtain ⟨g1, _, d1⟩ := h1
   obtain ⟨g2, w2, d2⟩ := h2
   refine ⟨g1.trans g2, w2, ?_⟩
-  rcases d1 with ⟨r1, u1⟩ | ⟨r1, n1⟩
-  · rcases d2 with ⟨r2, u2⟩ | ⟨r2, n2⟩
+  rcases d1 with ⟨r1, u1⟩ | ⟨r1, n1, m1⟩
+  · rcases d2 with ⟨r2, u2⟩ | ⟨r2, n2, m2⟩
     · exact Or.inl ⟨r2.trans r1, u2.trans u1⟩
     · right
-      refine ⟨?_, n2⟩
-      rw [r2]; exact (norm_congr g1.2.1 r1 u1).2.1
+      refine ⟨?_, n2, fun d => ?_⟩
+      · rw [r2]; exact (norm_congr g1.2.1 r1 u1).2.1
+      · rw [← (norm_congr g1.2.1 r1 u1).1]; exact m2 d
   · right
-    rcases d2 with ⟨r2, u2⟩ | ⟨r2, n2⟩
-    · refine ⟨r2.trans r1, ?_⟩
-      rw [(norm_congr g2.2.1 r2 u2).2.2]; exact n1
-    · refine ⟨?_, n2⟩
-      rw [r2, norm_of_not_due n1]; exact r1
+    rcases d2 with ⟨r2, u2⟩ | ⟨r2, n2, m2⟩
+    · refine ⟨r2.trans r1, ?_, fun d => ?_⟩
+      · rw [(norm_congr g2.2.1 r2 u2).2.2]; exact n1
+      · rw [u2]; exact m1 d
+    · refine ⟨?_, n2, fun d => ?_⟩
+      · rw [r2, norm_of_not_due n1]; exact r1
+      · have := m2 d
+        rw [norm_of_not_due n1] at this
+        exact Int.le_trans (m1 d) this
 
 /-- A successful deduction of a valid amount advances the record and raises the counted spend
     of the current period by exactly the amount. -/
@@ -147,16 +153,20 @@ theorem deduct_adv {s s' : Session} {amt : Coins} {now : Int} (hw : WFS s) (hv :
   · have hnd : resetDue ({ norm s now with used := nu }) now = false := by
       have := norm_idem s now
       simpa [resetDue] using this
-    refine ⟨⟨hg, hw', Or.inr ⟨rfl, hnd⟩⟩, fun d => ?_⟩
-    have hq := (add_spec (WFS_norm hw now).used hv ha).2 d
-    unfold U
-    rw [norm_of_not_due hnd]
-    exact hq
+    have hq := (add_spec (WFS_norm hw now).used hv ha).2
+    refine ⟨⟨hg, hw', Or.inr ⟨rfl, hnd, fun d => ?_⟩⟩, fun d => ?_⟩
+    · have := amountOf_nonneg hv d
+      have := hq d
+      simp only
+      omega
+    · unfold U
+      rw [norm_of_not_due hnd]
+      exact hq d
 
 /-- the reset a deduction performs is due: the period is positive and has elapsed -/
 theorem reset_change_due {now : Int} {s s' : Session} (h : Adv now s s') (hne : s'.reset ≠ s.reset) :
     resetDue s now = true ∧ s'.reset = now ∧ resetDue s' now = false := by
-  rcases h.2.2 with ⟨r, _⟩ | ⟨r, n⟩
+  rcases h.2.2 with ⟨r, _⟩ | ⟨r, n, _⟩
   · exact absurd r hne
   · by_cases hd : resetDue s now = true
     · refine ⟨hd, ?_, n⟩
@@ -172,7 +182,7 @@ theorem adv_outflow_bound {now : Int} {s s' : Session} {d : Denom} {out : Int} (
     (s'.reset ≠ s.reset → out ≤ amountOf s'.used d) := by
   constructor
   · intro hr
-    rcases h.2.2 with ⟨_, u⟩ | ⟨r, n⟩
+    rcases h.2.2 with ⟨_, u⟩ | ⟨r, n, _⟩
     · rw [U_congr h.1.2.1 hr u] at hout
       rw [u]; omega
     · by_cases hd : resetDue s now = true
@@ -191,5 +201,21 @@ theorem adv_outflow_bound {now : Int} {s s' : Session} {d : Denom} {out : Int} (
     unfold U at hout
     rw [norm_of_not_due n, norm_of_due hd] at hout
     simpa [amountOf] using hout
+
+/-- within one period the counted spend never goes down -/
+theorem adv_used_mono {now : Int} {s s' : Session} (h : Adv now s s') (hr : s'.reset = s.reset) (d : Denom) :
+    amountOf s.used d ≤ amountOf s'.used d := by
+  rcases h.2.2 with ⟨_, u⟩ | ⟨r, _, mono⟩
+  · rw [u]; exact Int.le_refl _
+  · by_cases hd : resetDue s now = true
+    · exfalso
+      rw [norm_of_due hd] at r
+      have := resetDue_iff.mp hd
+      simp only at r
+      omega
+    · have hd' : resetDue s now = false := by simpa using hd
+      have := mono d
+      rw [norm_of_not_due hd'] at this
+      exact this
 
 end GnoVerif.C16
